@@ -38,7 +38,7 @@ def mutate(v, rng):
         choices += ['rd', 've', 'off', 'size', 'lb']
     c = rng.choice(choices)
     if c == 'pid':
-        w['pid'] = (v['pid'] + 1 + rng.below(5)) & 0xffffffff
+        w['pid'] = rng.choice([(v['pid'] + 1 + rng.below(5)) & 0xffffffff, v['pid'] ^ (1 << rng.below(32))])
     elif c == 'addr':
         wd = 128 if v6 else 32
         if v['plen'] == 0:
@@ -53,26 +53,42 @@ def mutate(v, rng):
     elif c == 'labels':
         ls = list(v['labels'])
         if isinstance(ls[-1], bytes):
-            ls = [(rng.below(1 << 20), 0, 1)]
+            # a withdrawal placeholder: the other placeholder (they differ in one bit), or a real label
+            other = bytes([0, 0, 0]) if ls[-1][0] == 0x80 else bytes([0x80, 0, 0])
+            ls = [other] if rng.chance(1, 2) else [(rng.below(1 << 20), 0, 1)]
         else:
-            val, e, s = ls[-1]
-            ls[-1] = ((val + 1) % (1 << 20), e, s)
+            i = rng.below(len(ls))
+            val, e, s_ = ls[i]
+            m = rng.below(3)
+            if m == 0:
+                val2, e2 = (val + 1) % (1 << 20), e
+            elif m == 1:
+                val2, e2 = val ^ (1 << rng.below(20)), e
+            else:
+                val2, e2 = val, e ^ (1 << rng.below(3))
+            # keep clear of the two compatibility stop patterns above the bottom of the stack
+            if s_ == 0 and val2 in (0, 0x80000) and e2 == 0:
+                e2 = 1 if (val2, 1) != (val, e) else 2
+            ls[i] = (val2, e2, s_)
         w['labels'] = ls
     elif c == 'rd':
-        w['rd'] = bytes([v['rd'][0] ^ 1]) + v['rd'][1:]
+        i = rng.below(8)
+        w['rd'] = v['rd'][:i] + bytes([v['rd'][i] ^ (1 << rng.below(8))]) + v['rd'][i + 1:]
     elif c == 'raw':
         if nlrienc.kind(v['fam']) == 'F' and not v6:
             if len(v['raw']) < 3:
                 return None
-            w['raw'] = v['raw'][:-1] + bytes([v['raw'][-1] ^ 1])
+            w['raw'] = v['raw'][:-1] + bytes([v['raw'][-1] ^ (1 << rng.below(8))])
         elif len(v['raw']) == 0:
             w['raw'] = b'\x01' if k != 'R' else b'\x00\x00\x00\x01'
         else:
-            w['raw'] = v['raw'][:-1] + bytes([v['raw'][-1] ^ 1])
+            i = rng.below(len(v['raw']))
+            w['raw'] = v['raw'][:i] + bytes([v['raw'][i] ^ (1 << rng.below(8))]) + v['raw'][i + 1:]
     elif c == 'type':
-        w['type'] = (v['type'] + 1) % 256
+        w['type'] = rng.choice([(v['type'] + 1) % 256, v['type'] ^ (1 << rng.below(8))])
     else:
-        w[c] = v[c] ^ 1
+        width = {'ve': 16, 'off': 16, 'size': 16, 'lb': 24}[c]
+        w[c] = v[c] ^ (1 << rng.below(width))
     return w
 
 
